@@ -408,7 +408,7 @@ theorem inv_crash (s : St) (h : Inv s) : Inv (crash s) := by
   · rw [if_neg hahead]; exact hp
 
 theorem inv_step (c : Cfg) (hc : c.Good) (s : St) (e : Ev) (h : Inv s) : Inv (step c s e) := by
-  obtain ⟨hf, hsf⟩ := hc
+  obtain ⟨hf, hsf, hsend⟩ := hc
   cases e with
   | call cl =>
     simp only [step]
@@ -437,8 +437,8 @@ theorem inv_step (c : Cfg) (hc : c.Good) (s : St) (e : Ev) (h : Inv s) : Inv (st
       simp only [St.written, St.durable]
       rw [raftOf_append, hb]
       simp
-    | appended r seg off => exact h
-    | synced r seg off => exact h
+    | appended r seg off => simp only [hsend, if_true]; exact h
+    | synced r seg off => simp only [hsend, if_true]; exact h
   | crash => exact inv_crash s h
 
 theorem inv_run (c : Cfg) (hc : c.Good) (evs : List Ev) : Inv (run c evs) := by
